@@ -430,6 +430,7 @@ def _process(cls: t.Type[PaneBase], opts: PaneOptions):
     fields: t.List[Field] = []
 
     specs: t.Dict[str, FieldSpec] = {}
+    owners: t.Dict[str, type] = {}  # class which (last) declared each field
 
     # collect FieldSpecs from base classes
     for base in reversed(cls.__mro__[1:]):
@@ -441,7 +442,10 @@ def _process(cls: t.Type[PaneBase], opts: PaneOptions):
         # (look in the class's own dict: an inherited binding was already applied at the level that made it)
         bound_vars = t.cast(t.Mapping[t.Union[t.TypeVar, ParamSpec], type], base.__dict__.get(PANE_BOUNDVARS, {}))
         specs.update(cls_specs)
-        specs = {k: spec.replace_typevars(bound_vars) for (k, spec) in specs.items()}
+        owners.update(dict.fromkeys(cls_specs, base))
+        # (the binding of a subscripted base only concerns the fields that base inherits itself,
+        #  not those of a sibling base which happens to use the same type variable)
+        specs = {k: (spec.replace_typevars(bound_vars) if owners[k] in base.__mro__ else spec) for (k, spec) in specs.items()}
 
     annotations = get_type_hints(cls)
     kw_only = opts.kw_only  # current kw_only state
